@@ -28,4 +28,14 @@ def run(repo, tier) -> Result:
     for k in sorted(uni):
         check_function("C16", res, repo, uni[k])
     check_amorph("C16", res, repo)
+    # the functions read candle geometry (realbody, shadows, high_low) and normalise indices through the shared helpers: a cached
+    # geometry or an index helper that treats i and i - n differently breaks index consistency for every one of them
+    from ..framework_rules import check_candle_geometry_pure
+    from .c20 import check_index_contracts
+
+    check_candle_geometry_pure("C16", res, repo)
+    from .c17 import check_geometry
+
+    check_geometry(res, repo, prop="C16")
+    check_index_contracts(res, repo, prop="C16")
     return res
